@@ -48,34 +48,34 @@ def space_prop(props_files, finding_props, **kw):
     return d
 
 PROPS = {
-    "C01": planner_prop(["Props/C01.v"], ["C01"], diff_fields={1}),
-    "C02": planner_prop(["Props/C02.v"], ["C02"], diff_fields={1}),
-    "C03": planner_prop(["Props/C03.v"], ["C03"], diff_fields={1}),
-    "C05": planner_prop(["Props/C05.v"], ["C05"], diff_fields={1}),
-    "C07": planner_prop(["Props/C07.v"], ["C07"], diff_fields={1}),
-    "C08": planner_prop(["Props/C08.v"], ["C08"], diff_fields={1}),
-    "C06": planner_prop(["Props/C06.v"], ["C06", "C01", "C02", "C03"], diff_fields={1},
+    "C01": planner_prop(["Props/C01.v"], ["C01"]),
+    "C02": planner_prop(["Props/C02.v"], ["C02"]),
+    "C03": planner_prop(["Props/C03.v"], ["C03"]),
+    "C05": planner_prop(["Props/C05.v"], ["C05"]),
+    "C07": planner_prop(["Props/C07.v"], ["C07"]),
+    "C08": planner_prop(["Props/C08.v"], ["C08"]),
+    "C06": planner_prop(["Props/C06.v"], ["C06", "C01", "C02", "C03"],
                         explanation="level is 'proof' for the deadline state machine, no-false-success and the finite-iteration argument on the model; "
                                     "the wall-clock part is measured exploration (stage 'timing': real timeouts 0..100 ms, feasible and sealed-goal worlds, "
                                     "no iteration budget) and labelled partial: the model cannot exhibit scheduler delays or the cost of user callbacks"),
     "C18": planner_prop(["Props/C18.v"], ["C18"]),
-    "C04": planner_prop(["Props/C04.v"], ["C04"], diff_fields={1}),
+    "C04": planner_prop(["Props/C04.v"], ["C04"]),
     "C09": space_prop(["Props/C09.v"], ["C09"]),
     "C10": space_prop(["Props/C10.v"], ["C10"]),
     "C11": space_prop(["Props/C11.v"], ["C11"]),
     "C12": space_prop(["Props/C12.v"], ["C12"]),
     "C13": space_prop(["Props/C13.v"], ["C13"]),
     "C14": space_prop(["Props/C14.v"], ["C14", "C11"]),
-    "C19": planner_prop(["Props/C19.v", "Spaces/SpDecode.v"], ["C19"], diff_fields={1}, level="translation_validation",
+    "C19": planner_prop(["Props/C19.v", "Spaces/SpDecode.v"], ["C19"], level="translation_validation",
                         explanation="programs = Python-API scenarios executed on both sides; disagreements_checked = scenarios compared"),
-    "C20": planner_prop(["Props/C20.v"], ["C20", "C19"], diff_fields={1}),
+    "C20": planner_prop(["Props/C20.v"], ["C20", "C19"]),
     "C15": planner_prop(["Props/C15.v"], ["C15"]),
     "C16": planner_prop(["Props/C16.v"], ["C16"]),
     "C17": planner_prop(["Props/C17.v"], ["C17"]),
 }
 
-FAMS_QUICK = "table:120,rv:10,so2:6,so3:6,se2:6,se3:5,css:5"
-FAMS_THOROUGH = "table:1500,rv:80,so2:50,so3:50,se2:50,se3:40,css:40"
+FAMS_QUICK = "table:600,rv:24,so2:12,so3:12,se2:12,se3:10,css:10"
+FAMS_THOROUGH = "table:8000,rv:300,so2:150,so3:150,se2:150,se3:120,css:120"
 
 SPACE_STAGES = {
     "C09": [("metric", ["metric"], True, False), ("metric:malformed", ["metric"], False, True)],
@@ -126,6 +126,8 @@ def stages(pid, tier, seed, replay):
         for name, flags in PLANNER_STAGE_FLAGS[pid]:
             f2 = fams
             model = True
+            if "--dense" in flags:
+                f2 = "table:2500" if tier == "quick" else "table:25000"
             if "--timing" in flags:
                 # real-clock runs: implementation only, real spaces only
                 f2 = "rv:40,so2:12,so3:12,se2:12,se3:10,css:10" if tier == "quick" else "rv:300,so2:100,so3:100,se2:100,se3:80,css:80"
@@ -144,8 +146,9 @@ PLANNER_STAGE_FLAGS = {
     "C18": [("prm", ["--only-planner", "prm"]), ("prm:obstacle-free", ["--only-planner", "prm", "--free"])],
     "C04": [("planners", []), ("planners:obstacle-free", ["--free"])],
     "C15": [("planners:snapshots", []), ("per-iteration:snapshots", ["--per-iteration"])],
-    "C16": [("per-iteration", ["--per-iteration"])],
-    "C17": [("rrtstar", ["--only-planner", "rrtstar"]), ("rrtstar:obstacle-free", ["--only-planner", "rrtstar", "--free"])],
+    "C16": [("per-iteration", ["--per-iteration"]), ("planners:multi-iteration", [])],
+    "C17": [("rrtstar", ["--only-planner", "rrtstar"]), ("rrtstar:obstacle-free", ["--only-planner", "rrtstar", "--free"]),
+            ("rrtstar:dense-tables", ["--only-planner", "rrtstar", "--dense"])],
 }
 
 
